@@ -37,3 +37,18 @@ Definition weights_rewrite (real : list Z) (data : list Z) : res (Z * list Z * l
   let stream := stream_bytes (weight_fields (enc_of_dec D) data) in
   let* (ws, _, _) := read_weights huf_new (zlen real :: real) in
   ROk (used, stream, ws).
+
+(** *** the two forms of the weight description ([HuffmanEncoder::write_table]) *)
+(** direct: one header byte 127 + number of weights, then 4-bit fields, two per byte, the first in the high half *)
+Fixpoint pack_weights (ws : list Z) : list Z :=
+  match ws with
+  | [] => []
+  | [w] => [w * 16]
+  | w1 :: w2 :: t => (w1 * 16 + w2) :: pack_weights t
+  end.
+Definition direct_desc (ws : list Z) : list Z := (Z.of_nat (length ws) + 127) :: pack_weights ws.
+
+(** FSE-compressed: the histogram of the weights up to the largest one goes to the normaliser *)
+Definition zmax_list (l : list Z) : Z := fold_right Z.max 0 l.
+Definition occ (s : Z) (l : list Z) : Z := Z.of_nat (count_occ Z.eq_dec l s).
+Definition weight_hist (data : list Z) : list Z := map (fun n => occ (Z.of_nat n) data) (seq 0 (S (Z.to_nat (zmax_list data)))).
